@@ -426,6 +426,39 @@ def special_runs(rng, S):
                                                             ",".join(x.hex() for x in spks_b), hx(msg)))
             exp.append("OK N" if sig is None else "ORACLE-INCONSISTENT: reference assembles a signature below the split threshold")
             out.append(Case(lines, exp, [name, "threshold-mismatch", name + ":threshold-mismatch"], "coordinator threshold below the split threshold"))
+    # --- more signers than the threshold, list built by the caller (Coordinator::choose never returns more than min_signers)
+    t2 = rng.choice([2, 2, 3]); n2 = t2 + rng.choice([1, 2, 3]); k2 = rng.randrange(t2 + 1, n2 + 1)
+    msg = rb(rng, 17)
+    lines, exp = [], []
+    sk = S.keygen(F.Tape(rb(rng, 96))); gpk = S.G_mulgen(sk)
+    gsk_b, gpk_b = S.enc_group_sk(sk), S.enc_group_pk(gpk)
+    tape_s = rb(rng, 64 * t2 + 17)
+    shares, vss = S.trusted_split(F.Tape(tape_s), sk, t2, n2)
+    shares_b = [S.enc_share(x) for x in shares]
+    lines.append(T + "split %s %s %d %d" % (tape_s.hex(), gsk_b.hex(), t2, n2)); exp.append("OK %s %s" % (",".join(x.hex() for x in shares_b), S.enc_vss_list(vss).hex()))
+    spks = [(x["ident"], x["pk"]) for x in shares]
+    spks_b = [S.enc_signer_pk(p) for p in spks]
+    signers = sorted(rng.sample(range(n2), k2))
+    nonces, comms = {}, {}
+    for i in signers:
+        tp = rb(rng, 64)
+        nonces[i], comms[i] = S.commit(F.Tape(tp), shares[i]["sk"], shares[i]["ident"])
+        lines.append(T + "commit %s %s" % (shares_b[i].hex(), tp.hex())); exp.append("OK %s %s" % (S.enc_nonce(nonces[i]).hex(), S.enc_commitment(comms[i]).hex()))
+    full = [comms[i] for i in signers]
+    cl_b = S.enc_commitment_list(full)
+    zs = {i: S.sign_share(shares[i], nonces[i], comms[i], msg, full) for i in signers}
+    if all(z is not None for z in zs.values()):
+        for i in signers:
+            lines.append(T + "sign %s %s %s %s %s" % (shares_b[i].hex(), S.enc_nonce(nonces[i]).hex(), S.enc_commitment(comms[i]).hex(), hx(msg), cl_b.hex()))
+            exp.append("OK S " + S.enc_sig_share((shares[i]["ident"], zs[i])).hex())
+        sig = S.assemble(t2, gpk, [(shares[i]["ident"], zs[i]) for i in signers], full, spks, msg)
+        lines.append(T + "assemble %d %s %s %s %s %s" % (t2, gpk_b.hex(), ",".join(S.enc_sig_share((shares[i]["ident"], zs[i])).hex() for i in signers), cl_b.hex(),
+                                                        ",".join(x.hex() for x in spks_b), hx(msg)))
+        exp.append(("OK S " + S.enc_signature(sig).hex()) if sig is not None else "OK N")
+        if sig is not None:
+            lines.append(T + "verify %s %s %s" % (gpk_b.hex(), S.enc_signature(sig).hex(), hx(msg))); exp.append("OK T")
+        out.append(Case(lines, exp, [name, "more-signers-than-threshold", name + ":more-signers-than-threshold"] + (["more-signers:assembled"] if sig is not None else []),
+                        "signer set larger than the threshold"))
     # --- large thresholds
     t, n = rng.choice([(17, 17), (17, 18), (10, 140)] if name != "ed448" else [(17, 17)])
     tape_s = rb(rng, 64 * t + 17)
@@ -538,7 +571,7 @@ def main(argv):
                 "share-wrong-signer", "share-ident-altered", "other-message", "wire-roundtrip", "rfc8032-interop", "signer-not-in-list", "other-group-key", "identifiers>255", "point-in-other-valid-format", "sign:own-entry-hiding-replaced", "sign:own-entry-binding-replaced",
                 "sign:own-entry-both-replaced", "sign:other-entry-hiding-replaced"]
         req += [s + ":structured-point:accepted" for s in F.SUITES]
-        req += [s + ":threshold-mismatch" for s in F.SUITES] + [s + ":large-threshold" for s in F.SUITES] + [s + ":keygen-zero-scalar" for s in F.SUITES]
+        req += [s + ":threshold-mismatch" for s in F.SUITES] + [s + ":large-threshold" for s in F.SUITES] + [s + ":keygen-zero-scalar" for s in F.SUITES] + [s + ":more-signers-than-threshold" for s in F.SUITES] + ["more-signers:assembled"]
         rep.require(*req)
     except Inconclusive as e:
         rep.incon.append(str(e))
